@@ -119,6 +119,28 @@ def check_graph(case, ctx, m, objs, g):
         feats = sorted({o for s in src for o in ops_of.get(s, [])} - {'field', 'attackStep', 'collect'})
         out.append(('edges', {'missing': sorted(missing)[:6], 'unexpected': sorted(extra)[:6], 'sources': src[:6]},
                     feats))
+    # ---- C15: every attack-graph edge is predicted by a language-graph link from step s of X's type to a step t
+    #      owned by Y's type or one of its ancestors
+    lg = ctx.lang_graph
+    lgsteps = {(st.asset.name, st.name): st for st in lg.attack_steps}
+    unpredicted = []
+    for n in nodes:
+        src = lgsteps.get((str(n.asset.type), n.name))
+        for c in n.children:
+            if id(c) not in node_set:
+                continue
+            ok = False
+            if src is not None:
+                for (tgt, _chain) in src.children.get(c.name, []):
+                    ta = lg.get_asset_by_name(str(c.asset.type))
+                    if tgt.name == c.name and ta is not None and ta.is_subasset_of(tgt.asset):
+                        ok = True
+            if not ok:
+                unpredicted.append((n.full_name, c.full_name))
+    if unpredicted:
+        src = sorted({tuple(u[0].rsplit(':', 1)) for u in unpredicted})
+        feats = sorted({o for s2 in src for o in ops_of.get(s2, [])} - {'field', 'attackStep', 'collect'})
+        out.append(('lg_prediction', {'edges': unpredicted[:6]}, feats))
     if parent != child:
         out.append(('parents_converse', {'only_children': sorted(child - parent)[:6],
                                          'only_parents': sorted(parent - child)[:6]}, []))
